@@ -16,6 +16,7 @@ import (
 
 	kafka "github.com/segmentio/kafka-go"
 	"github.com/segmentio/kafka-go/protocol"
+	"github.com/segmentio/kafka-go/protocol/fetch"
 	"github.com/segmentio/kafka-go/protocol/offsetcommit"
 	"github.com/segmentio/kafka-go/protocol/offsetfetch"
 	"github.com/segmentio/kafka-go/zzverif/vhook"
@@ -53,7 +54,12 @@ type scn struct {
 	// application commits the messages of both with one CommitMessages call, so that one OffsetCommit request
 	// carries two topics
 	twoTopics bool
+	// ff: the scenario belongs to the class "fetch fault in the middle of an assignment" (fetchfault_test.go)
+	ff *ffCase
 }
+
+// startLast: the members are configured with StartOffset: LastOffset
+func (sc *scn) startLast() bool { return sc.ff != nil && sc.ff.last }
 
 // pk maps a topic partition to the key the oracles use: partitions 0 and 1 of topic t, or (two topics) t/0 and u/0.
 func (sc *scn) pk(topic string, part int) int {
@@ -300,11 +306,13 @@ func (sc *scn) scenario() *qx.Scenario {
 			}
 			mu.Unlock()
 		}
-		return sc.judge(x, c, st, &mu, &evs)
+		return sc.judge(x, c, st, &mu, &evs, stopped)
 	}}
 }
 
-func (sc *scn) judge(x *qx.Exec, c *fk.Cluster, st qx.Status, mu *sync.Mutex, evsp *[]evt) *qx.Outcome {
+// judge: quiescent tells that the scenario ended because the group had nothing left to do (everything in the logs
+// delivered and committed, the members polling at the log ends), not because its applications gave up.
+func (sc *scn) judge(x *qx.Exec, c *fk.Cluster, st qx.Status, mu *sync.Mutex, evsp *[]evt, quiescent bool) *qx.Outcome {
 	mu.Lock()
 	evs := append([]evt(nil), *evsp...)
 	mu.Unlock()
@@ -385,6 +393,16 @@ func (sc *scn) judge(x *qx.Exec, c *fk.Cluster, st qx.Status, mu *sync.Mutex, ev
 	memberOfConn := map[int]string{}
 	_ = memberOfConn
 	allRestarts := map[int]map[int64]bool{0: {}, 1: {}}
+	// one token per (OffsetFetch answer, partition): the offset at which the assignment made with that answer starts.
+	// With StartOffset: LastOffset and nothing committed the start is symbolic; the position the member resolved it to
+	// is the offset of the first Fetch the broker sees for the partition afterwards (resolved lists those tokens).
+	type tok struct {
+		seq int
+		at  time.Duration
+		v   int64
+	}
+	tokens := map[int][]tok{}
+	resolved := map[int][]tok{}
 	for _, e := range c.Journal {
 		if r, ok := e.Msg.(*offsetfetch.Request); ok && e.Answer == "ok" {
 			for _, t := range r.Topics {
@@ -401,15 +419,25 @@ func (sc *scn) judge(x *qx.Exec, c *fk.Cluster, st qx.Status, mu *sync.Mutex, ev
 						}
 					}
 					if v < 0 {
-						v = 0 // StartOffset: FirstOffset
+						if !sc.startLast() {
+							v = 0 // StartOffset: FirstOffset
+						} else if v = firstFetchAfter(sc, c, e, k); v < 0 {
+							// StartOffset: LastOffset and the member has not sent a Fetch for the partition since:
+							// the position of this assignment was never resolved, nothing can have been delivered in it
+							continue
+						} else {
+							resolved[k] = append(resolved[k], tok{e.Seq, e.AnsweredAt, v})
+						}
 					}
 					allRestarts[k][v] = true
+					tokens[k] = append(tokens[k], tok{e.Seq, e.AnsweredAt, v})
 				}
 			}
 		}
 	}
 	_ = restart
 	last := map[string]int64{}
+	lastTok := map[string]int{}
 	delivered := map[int]map[int64]time.Duration{0: {}, 1: {}}
 	for _, ev := range evs {
 		if ev.Kind != "deliver" {
@@ -418,7 +446,30 @@ func (sc *scn) judge(x *qx.Exec, c *fk.Cluster, st qx.Status, mu *sync.Mutex, ev
 		k := fmt.Sprintf("%s/%d", ev.Member, ev.Part)
 		prev, seen := last[k]
 		if !(seen && ev.Off == prev+1) && !allRestarts[ev.Part][ev.Off] {
-			viol("delivery-gap-or-wrong-start", fmt.Sprintf("member %s received t/%d@%d after @%d (seen=%v); it neither continues the sequence nor starts at an offset the coordinator served (%v)", ev.Member, ev.Part, ev.Off, prev, seen, keys(allRestarts[ev.Part])))
+			viol("delivery-gap-or-wrong-start", fmt.Sprintf("member %s received t/%d@%d after @%d (seen=%v); it neither continues the sequence nor starts at an offset the coordinator served or (StartOffset: LastOffset, nothing committed) the member resolved with its first Fetch of the assignment (%v)", ev.Member, ev.Part, ev.Off, prev, seen, keys(allRestarts[ev.Part])))
+		}
+		// (e) inside one assignment delivery proceeds without gaps and without going back: a delivery that does not
+		// continue the member's sequence for the partition is the first one of a NEW assignment, i.e. an OffsetFetch
+		// answered after the one the member's previous (re)start is attributed to, and before this delivery, carries
+		// exactly this offset. (The earliest such answer is taken: that leaves the most for later restarts.)
+		if !(seen && ev.Off == prev+1) {
+			used, had := lastTok[k]
+			found := false
+			for _, t := range tokens[ev.Part] {
+				if (!had || t.seq > used) && t.at <= ev.At && t.v == ev.Off {
+					lastTok[k], found = t.seq, true
+					break
+				}
+			}
+			if !found {
+				var since []string
+				for _, t := range tokens[ev.Part] {
+					if (!had || t.seq > used) && t.at <= ev.At {
+						since = append(since, fmt.Sprintf("#%d->%d", t.seq, t.v))
+					}
+				}
+				viol("delivery-restarts-within-assignment", fmt.Sprintf("member %s received t/%d@%d after @%d (seen=%v) although no new assignment starting at %d was made since its last (re)start (OffsetFetch answers since then: %v): inside one assignment delivery must proceed from the start offset without gaps or rewinds", ev.Member, ev.Part, ev.Off, prev, seen, ev.Off, since))
+			}
 		}
 		last[k] = ev.Off
 		if _, ok := delivered[ev.Part][ev.Off]; !ok {
@@ -426,15 +477,48 @@ func (sc *scn) judge(x *qx.Exec, c *fk.Cluster, st qx.Status, mu *sync.Mutex, ev
 		}
 	}
 	// (d) completeness at quiescence, and no acknowledged commit covers an undelivered record
-	for _, a := range acks {
-		start := int64(0)
-		if v, ok := sc.committed[a.part]; ok {
-			start = v
+	logEnd := func(k int) int64 {
+		if p := c.Part(sc.tp(k).Topic, sc.tp(k).Part); p != nil {
+			return p.End
 		}
-		for off := start; off < a.off && off < nrec; off++ {
+		return 0
+	}
+	// firstOwed: the lowest offset of partition k the group owes its applications, as far as acknowledgements up to
+	// "at" are concerned: the committed offset the group started with, else the start of the log (FirstOffset), else
+	// (LastOffset) the position the latest assignment made without a committed offset was resolved to - the records
+	// below it were in the log before the member first asked for data and are skipped by configuration.
+	firstOwed := func(k int, at time.Duration) int64 {
+		if v, ok := sc.committed[k]; ok {
+			return v
+		}
+		if !sc.startLast() {
+			return 0
+		}
+		start := logEnd(k)
+		for _, t := range resolved[k] {
+			if t.at <= at {
+				start = t.v
+			}
+		}
+		return start
+	}
+	for _, a := range acks {
+		start := firstOwed(a.part, a.at)
+		for off := start; off < a.off && off < logEnd(a.part); off++ {
 			at, ok := delivered[a.part][off]
 			if !ok || at > a.at {
 				viol("commit-covers-undelivered", fmt.Sprintf("commit of offset %d for t/%d (request #%d at %v) covers record @%d which no application had received by then", a.off, a.part, a.seq, a.at, off))
+			}
+		}
+	}
+	// (f) once the group is quiescent every record it owes has been delivered at least once
+	if st == qx.StDone && quiescent {
+		for p := 0; p < 2; p++ {
+			for off := firstOwed(p, 1<<62); off < logEnd(p); off++ {
+				if _, ok := delivered[p][off]; !ok {
+					viol("record-never-delivered", fmt.Sprintf("the group is quiescent (log end of t/%d is %d, its member polls at the end) but record @%d, which is not below the offset the group started from (%d), was never delivered to an application", p, logEnd(p), off, firstOwed(p, 1<<62)))
+					break
+				}
 			}
 		}
 	}
@@ -475,6 +559,25 @@ func (sc *scn) judge(x *qx.Exec, c *fk.Cluster, st qx.Status, mu *sync.Mutex, ev
 	return o
 }
 
+// firstFetchAfter returns the offset of the first Fetch for partition k that reached a broker after the OffsetFetch e
+// had been answered (-1: none).
+func firstFetchAfter(sc *scn, c *fk.Cluster, e *fk.Entry, k int) int64 {
+	for _, f := range c.Journal[e.Seq+1:] {
+		req, ok := f.Msg.(*fetch.Request)
+		if !ok || f.At < e.AnsweredAt {
+			continue
+		}
+		for _, t := range req.Topics {
+			for _, p := range t.Partitions {
+				if t.Topic == sc.tp(k).Topic && int(p.Partition) == sc.tp(k).Part {
+					return p.FetchOffset
+				}
+			}
+		}
+	}
+	return -1
+}
+
 func answeredBefore(c *fk.Cluster, ackSeq int, e *fk.Entry) bool {
 	a := c.Journal[ackSeq]
 	return a.AnsweredAt < e.AnsweredAt || (a.AnsweredAt == e.AnsweredAt && a.Seq < e.Seq)
@@ -505,11 +608,20 @@ func suite(tier string) []qx.SuiteItem {
 		{name: "resume-with-uncommitted-first-partition", committed: map[int]int64{1: 2}, faults: map[protocol.ApiKey][]string{protocol.Heartbeat: {"err:27"}, protocol.OffsetFetch: {"drop"}}, bound: b},
 		{name: "eviction", evict: true, faults: map[protocol.ApiKey][]string{protocol.Heartbeat: {"err:25"}, protocol.JoinGroup: {"err:25"}}, bound: b},
 	}
-	var items []qx.SuiteItem
+	// the many small scenarios of the fetch-fault class first: the large ones share what is left of the time budget
+	// (quick tier: the few cases explored beyond their script come last, so that they are not cut short on a busy machine)
+	var items, tail []qx.SuiteItem
+	for _, it := range ffSuite(tier) {
+		if tier != "thorough" && it.Bound > 0 {
+			tail = append(tail, it)
+		} else {
+			items = append(items, it)
+		}
+	}
 	for _, s := range scs {
 		items = append(items, qx.SuiteItem{Scn: s.scenario(), Bound: s.bound})
 	}
-	return items
+	return append(items, tail...)
 }
 
 func TestCheck(t *testing.T) {
